@@ -90,6 +90,10 @@ pub async fn on_request_handler(
     req: Request,
     server_context: &mut ServerContext,
 ) -> Result<(), Box<dyn Error + Sync + Send>> {
+    #[cfg(emmyluals_emmylua_analyzer_rust_verif)]
+    let Some(req) = super::verif_hook::intercept(req, server_context).await else {
+        return Ok(());
+    };
     dispatch_request!(req, server_context, {
         HoverRequest => on_hover,
         DocumentSymbolRequest => on_document_symbol,
